@@ -205,6 +205,7 @@ def rescore_path(mt, family, model, counters=None):
     fields = ["logprob", "length"]
     if family == "distance":
         fields += ["d_o", "d_s"]
+    prev_entry = None
     for x, cur in rescoring.rescore(mt, dist_fn, family):
         if counters is not None:
             counters["states_rescored"] = counters.get("states_rescored", 0) + 1
@@ -223,7 +224,24 @@ def rescore_path(mt, family, model, counters=None):
                 break
         if bad:
             kind = "nonemitting" if x.obs_ne != 0 else "emitting"
-            out.append((f"{bad[0]}:{kind}", f"state {x.key}: reported {bad[0]}={bad[1]!r}, the model assigns {bad[2]!r} to this path prefix "
-                        f"(path {[y.key for y in lb]})"))
+            # mechanism: is x a stale child?  Its step terms are right, but its predecessor on the path was replaced by a
+            # better candidate in a later round (widen / extend) and then postponed by the width pruning of that round, so
+            # it was never expanded again and x still carries the predecessor's old probability.
+            mech = None
+            if bad[0] == "logprob" and prev_entry is not None and len(prev_entry.prev_other) > 0 \
+                    and not prev_entry.stop and prev_entry.delayed > mt.expand_now and mt.max_lattice_width:
+                step_ok = True
+                if family == "distance":
+                    step_ok = close(x.lpt, cur["lpt"], rel) and close(x.lpe, cur["lpe"], rel)
+                if step_ok and bad[1] < bad[2]:
+                    mech = "stale-child-of-entry-replaced-then-postponed-by-pruning"
+            if mech:
+                out.append((f"{bad[0]}:{mech}", f"state {x.key}: reported logprob={bad[1]!r} but its predecessor {prev_entry.key} now has "
+                            f"{prev_entry.logprob!r} (replaced {len(prev_entry.prev_other)}x, delayed={prev_entry.delayed} > round {mt.expand_now}); "
+                            f"the model assigns {bad[2]!r} to this path prefix (path {[y.key for y in lb]})"))
+            else:
+                out.append((f"{bad[0]}:{kind}", f"state {x.key}: reported {bad[0]}={bad[1]!r}, the model assigns {bad[2]!r} to this path prefix "
+                            f"(path {[y.key for y in lb]})"))
             break
+        prev_entry = x
     return out
